@@ -240,6 +240,8 @@ class Interp:
         self.spec = 0  # 0 = code mode; +1 goal polarity; -1 hypothesis polarity
         self.depth = 0
         self.cur_frame = None
+        self.ghost = {}  # ghost values visible to clauses (external clock readings, ...)
+        self.ghost_clock = []
         self.functions_seen = {}  # qualname -> FnInfo (for evidence)
         self.assumed_calls = set()  # contracts used at call sites
         self.inlined = set()
@@ -837,7 +839,7 @@ class Interp:
     def clause_ast(self, text):
         cache = self.reg.clause_cache
         if text not in cache:
-            cache[text] = ast.parse(textwrap.dedent(text).strip(), mode="eval").body
+            cache[text] = _desugar_quantifiers(ast.parse(textwrap.dedent(text).strip(), mode="eval").body)
         return cache[text]
 
     def eval_clause(self, text, frame, pol):
@@ -863,7 +865,14 @@ class Interp:
                     g = self.as_bool_expr(self.eval(conj, frame))
                 finally:
                     self.spec = saved
-                self.path.prove(g, f"{label}[{k}.{j}]", reify=reify)
+                extra = []
+                for v in frame.locals.values():
+                    if isinstance(v, SInt):
+                        extra.append(v.e)
+                    elif isinstance(v, tuple):
+                        extra.extend(x.e for x in v if isinstance(x, SInt))
+                extra = extra[:16]
+                self.path.prove(g, f"{label}[{k}.{j}]", reify=reify, extra_terms=extra)
                 # re-assume in hypothesis form so that quantified parts become instantiable
                 self.assume_ast(conj, frame)
 
@@ -1117,6 +1126,23 @@ class Interp:
         return self.models.call(self, fv, args, kwargs, lineno)
 
 
+def _desugar_quantifiers(node):
+    """all(P for a in R1 for b in R2)  ->  all(all(P for b in R2) for a in R1)  (same for any)"""
+
+    class Tr(ast.NodeTransformer):
+        def visit_Call(self, n):
+            self.generic_visit(n)
+            if isinstance(n.func, ast.Name) and n.func.id in ("all", "any") and len(n.args) == 1 and isinstance(n.args[0], ast.GeneratorExp) and len(n.args[0].generators) > 1:
+                gen = n.args[0]
+                inner = ast.Call(func=ast.Name(id=n.func.id, ctx=ast.Load()), args=[ast.GeneratorExp(elt=gen.elt, generators=gen.generators[1:])], keywords=[])
+                inner = self.visit_Call(inner) if len(gen.generators) > 2 else inner
+                outer = ast.Call(func=ast.Name(id=n.func.id, ctx=ast.Load()), args=[ast.GeneratorExp(elt=inner, generators=gen.generators[:1])], keywords=[])
+                return ast.copy_location(outer, n)
+            return n
+
+    return ast.fix_missing_locations(Tr().visit(node))
+
+
 def _is_object_slot(f):
     return f in (object.__dict__.get("__eq__"), object.__dict__.get("__hash__"), object.__dict__.get("__init__"), object.__dict__.get("__ne__"))
 
@@ -1165,6 +1191,7 @@ def fresh_value(I: Interp, ty: Ty, hint="v"):
         srt = S.sort_of(ty.ety)
         arr = z3.Const(p.fresh_name(hint + "_arr"), z3.ArraySort(S.IntS, srt))
         n = p.fresh_int(hint + "_len")
+        p.add_pool(n)
         p.assume(n >= 0)
         return SSeq(arr, n, ty.ety, ty.seqkind)
     if k == "fixed":
